@@ -138,6 +138,54 @@ def dynamic_census(ctx, chk, rule):
         chk.ok(rule, "tad.py, reverse_dfs.py", "census: no getattr/setattr/eval/exec/globals/decorators in the solver modules")
 
 
+NODE_SOLVER_FIELDS = ("reach_probability", "expected_rewards", "expected_rewards_min_reach", "expected_reach_min_rewards", "next_states")
+
+
+def _restored_node_cache(ctx, f):
+    """f contains `for node in self.<cache>: node.<reset>()`: True when <reset> resolves, for every node class, to a restorer of all
+    solver-written fields; a text naming what is missing when it does not; None when f has no such loop."""
+    from . import kernels as K
+    rest = {g.qual: flds for g, flds in shared.restorers(ctx).items()}
+    for lp in walk_no_nested_defs(f.node):
+        if not (isinstance(lp, ast.For) and isinstance(lp.target, ast.Name) and isinstance(lp.iter, ast.Attribute) and attr_path(lp.iter) == "self." + lp.iter.attr):
+            continue
+        calls = [b.value for b in lp.body if isinstance(b, ast.Expr) and isinstance(b.value, ast.Call) and isinstance(b.value.func, ast.Attribute)
+                 and isinstance(b.value.func.value, ast.Name) and b.value.func.value.id == lp.target.id and not b.value.args and not b.value.keywords]
+        if len(calls) != 1 or len(lp.body) != 1:
+            continue
+        name = calls[0].func.attr
+        for cls in sorted(set(K.role_classes(ctx).values())):
+            flds = set()
+            seen = False
+            for c2 in ctx.prog.mro(cls):
+                m = ctx.prog.classes[c2].methods.get(name) if c2 in ctx.prog.classes else None
+                if m is None:
+                    continue
+                seen = True
+                if m.qual not in rest:
+                    return "%s.%s does more than put fields back to their constructed values" % (c2, name)
+                flds |= rest[m.qual]
+                # an override that does not call the base version hides it
+                if not any(isinstance(x, ast.Call) and isinstance(x.func, ast.Attribute) and x.func.attr == name and isinstance(x.func.value, ast.Call)
+                           and call_name(x.func.value) == "super" for x in ast.walk(m.node)):
+                    break
+            if not seen:
+                return "%s has no %s()" % (cls, name)
+            missing = [q for q in NODE_SOLVER_FIELDS if q not in flds]
+            if missing:
+                return "%s.%s() does not restore %s" % (cls, name, ", ".join(missing))
+        return True
+    return None
+
+
+def _own_line(ctx, g, node):
+    """False for a node that a pipeline view copied in from a helper (it is judged in the helper itself)."""
+    home = ctx.prog.funcs.get(g.qual)
+    if home is None or home.node is g.node:
+        return True
+    return home.node.lineno <= getattr(node, "lineno", home.node.lineno) <= (home.node.end_lineno or 10 ** 9)
+
+
 def r2_no_carried_state(ctx, chk, rule="C10.2"):
     scope = shared.solver_scope(ctx)
     pt = shared.solver_pointsto(ctx)
@@ -202,10 +250,31 @@ def r2_no_carried_state(ctx, chk, rule="C10.2"):
                        for x in walk_no_nested_defs(g_.node) if isinstance(x, ast.Attribute) and x.attr == s.field and isinstance(x.ctx, ast.Load) and attr_path(x) == "self." + s.field
                        and not (isinstance(ctx.cfg(g_).stmt_of(x), ast.Expr) and isinstance(ctx.cfg(g_).stmt_of(x).value, ast.Call)
                                 and call_name(ctx.cfg(g_).stmt_of(x).value).startswith("logging."))
-                       and not _write_only_use(x)]
+                       and not _write_only_use(x)
+                       and _own_line(ctx, g_, x)]
+            # a read that comes after this very store in the same function sees what THIS solve stored, not a leftover
+            try:
+                cfg_s = ctx.cfg(s.func)
+                st_s = cfg_s.stmt_of(s.node)
+                fresh = [x for x in readers if any(x is y for y in walk_no_nested_defs(s.func.node)) and cfg_s.stmt_of(x) is not st_s and cfg_s.dominates(st_s, cfg_s.stmt_of(x))]
+            except AnalysisError:
+                fresh = []
+            readers = [x for x in readers if not any(x is y for y in fresh)]
             if not readers:
-                chk.note("%s stores self.%s while solving; nothing reachable from solve() reads that field, so it cannot carry anything into a later solve" % (s.func.short, s.field))
+                chk.note("%s stores self.%s while solving; nothing reachable from solve() reads that field (except after this store), so it cannot carry anything into a later solve" % (s.func.short, s.field))
                 continue
+            if all(any(x is y for y in walk_no_nested_defs(s.func.node)) for x in readers):
+                verdict = _restored_node_cache(ctx, s.func)
+                if verdict is True:
+                    chk.ok(rule, s.func.where(s.node), "`%s` keeps the nodes (or their key) on the game object; before they are handed out again every node is put back to its "
+                           "constructed state by a method that restores every field the solver writes, for every node class" % norm_stmt(s.node)[:60])
+                    continue
+                if isinstance(verdict, str):
+                    problems += 1
+                    chk.violation(rule, s.func.where(s.node), "`%s` keeps the nodes on the game object and hands them out again, but %s: a second solve() starts from what the first one left" % (
+                        norm_stmt(s.node)[:60], verdict), expected="fresh nodes, or a reset of every solver-written field for every node class", found=verdict,
+                        construct="%s carries %s" % (s.func.short, s.field))
+                    continue
             problems += 1
             chk.violation(rule, s.func.where(s.node), "`%s` stores state on the game object while solving: a later solve() on the same object can see it" % norm_stmt(s.node),
                           expected="%s fields are written only by __init__" % game_cls, found=norm_stmt(s.node),
